@@ -84,10 +84,11 @@ pub fn c01(ctx: &mut Ctx) {
 #[derive(Clone, Copy, Debug, PartialEq, Eq)]
 pub enum M {
     Value, Point, Comm, CommOtherPoly, Shifted, ShiftedDrop, ShiftedAdd, ShiftedSwap, BoundRelabel, BoundDrop,
+    BoundAdd, BoundRelabelUnenforced,
     Witness, RandomV, RandomVToggle, VkG, VkGamma, VkH, VkBetaH, VkShift,
 }
 pub const STATEMENT: &[M] = &[M::Value, M::Point, M::Comm, M::CommOtherPoly];
-pub const BOUNDS: &[M] = &[M::Shifted, M::ShiftedDrop, M::ShiftedAdd, M::ShiftedSwap, M::BoundRelabel, M::BoundDrop];
+pub const BOUNDS: &[M] = &[M::Shifted, M::ShiftedDrop, M::ShiftedAdd, M::ShiftedSwap, M::BoundRelabel, M::BoundDrop, M::BoundAdd, M::BoundRelabelUnenforced];
 pub const PROOF: &[M] = &[M::Witness, M::RandomV, M::RandomVToggle];
 pub const KEY: &[M] = &[M::VkG, M::VkGamma, M::VkH, M::VkBetaH, M::VkShift];
 
@@ -133,6 +134,23 @@ pub fn mutate(ctx: &mut Ctx, rng: &mut Rng, id: &str, c: &Case, cs0: &[CommS], o
             must = !vs[i].is_zero();
         }
         M::BoundDrop => { let i = *bounded.get(0)?; cs[i].bound = None; must = true; }
+        M::BoundAdd => {
+            // an unbounded commitment presented under an enforced bound (no shifted part)
+            let i = (0..cs.len()).find(|&i| cs[i].bound.is_none())?;
+            let enforced = c.ck.enforced_degree_bounds.clone()?;
+            if enforced.is_empty() { return None; }
+            cs[i].bound = Some(enforced[range(rng, 0, enforced.len() - 1)]);
+            must = true;
+        }
+        M::BoundRelabelUnenforced => {
+            // relabelled to a bound the keys were not trimmed for (below / between / above the enforced ones)
+            let i = *bounded.get(0)?;
+            let enforced = c.ck.enforced_degree_bounds.clone()?;
+            let cand: Vec<usize> = (1..=c.trap.max_degree + 1).filter(|d| !enforced.contains(d)).collect();
+            if cand.is_empty() { return None; }
+            cs[i].bound = Some(cand[range(rng, 0, cand.len() - 1)]);
+            must = true;
+        }
         M::Witness => { w = Fr::rand(rng); must = false; }
         M::RandomV => { rv = Some(Fr::rand(rng)); must = false; }
         M::RandomVToggle => { rv = match rv { Some(_) => None, None => Some(rand_nonzero(rng)) }; must = false; }
@@ -317,6 +335,50 @@ pub fn batch_mutations(ctx: &mut Ctx, prop: &str, n: usize) {
             }
             ctx.rep.count(if pair.is_some() { "marlin/batch-cancel-same-point" } else { "marlin/batch-cancel-across-points" });
             ctx.rep.case(&format!("{} batch cancel out={:?}", c.desc(), out), Some(format!("marlin-batch/{}/{}/cancel{}", npoly, nl, pair.is_some())));
+        }
+        // errors that cancel across two query points *under the verifier's own challenge weights*:
+        // the combined claims of two point labels move by +D and -D (unbounded polynomials only)
+        {
+            let groups = crate::generic::group(&qs);
+            let mut k = 0usize; // index into the challenge stream
+            let mut per_group: Vec<Option<(String, Fr, Fr)>> = vec![]; // (label, point, challenge) of one unbounded poly
+            let mut xis: Vec<Fr> = vec![];
+            {
+                // the verifier's challenges on a fresh sponge are the prover's (lock-step): replay them
+                use ark_poly_commit::PolynomialCommitment;
+                let mut sp = LogSponge::fresh();
+                let _ = guarded(|| PC::batch_open(&c.ck, &c.polys, &c.comms, &qs, &mut sp, &c.rands, Some(&mut rng.clone())));
+                xis = sp.challenges();
+            }
+            for (_, pt, labels) in &groups {
+                let mut pick = None;
+                for l in labels {
+                    let p = c.polys.iter().find(|p| p.label() == l).unwrap();
+                    if k >= xis.len() { break; }
+                    if p.degree_bound().is_none() && pick.is_none() { pick = Some((l.clone(), *pt, xis[k])); }
+                    k += 1 + p.degree_bound().is_some() as usize;
+                }
+                per_group.push(pick);
+            }
+            let avail: Vec<usize> = (0..per_group.len()).filter(|&g| per_group[g].as_ref().map(|x| !x.2.is_zero()).unwrap_or(false)).collect();
+            if avail.len() >= 2 {
+                let (ga, gb) = (avail[0], avail[1]);
+                let (la, pa, xa) = per_group[ga].clone().unwrap();
+                let (lb, pb, xb) = per_group[gb].clone().unwrap();
+                if (la.clone(), pa) != (lb.clone(), pb) {
+                    let id = format!("{}/weighted-cancel@{},{}", id0, ga, gb);
+                    let dd = rand_nonzero(&mut rng);
+                    let mut ev2 = ev.clone();
+                    *ev2.get_mut(&(la, pa)).unwrap() += dd * xa.inverse().unwrap();
+                    *ev2.get_mut(&(lb, pb)).unwrap() -= dd * xb.inverse().unwrap();
+                    let out = batch_check_scalar(ctx, &mut rng, &id, &c, &cs, &qs, &ev2, &ws, &rvs);
+                    if out == Outcome3::Accept {
+                        ctx.rep.expect_fail(&id, "marlin/false-claim-accepted/batch-weighted-cancelling", "errors cancelling under the challenge weights across two query points accepted", replay(&c, &id, ctx.seed, "challenge-weighted cancelling errors"));
+                    }
+                    ctx.rep.count("marlin/batch-weighted-cancel");
+                    ctx.rep.case(&format!("{} batch weighted-cancel out={:?}", c.desc(), out), Some(format!("marlin-batch/{}/{}/wcancel", npoly, nl)));
+                }
+            }
         }
         if prop == "C05" || prop == "C03" {
             // shapes with a false claim planted
